@@ -147,10 +147,10 @@ def s2 : State := s1.set "g" (.fn .any)
 theorem exec_to_call : Exec sem0 env0 [] graphG emp 4 s2 := by
   have e1 : Exec sem0 env0 [] graphG emp 1 emp := .start
   have e2 : Exec sem0 env0 [] graphG emp 2 emp :=
-    .step e1 (n := nArgs) (by rfl) (.args (by exact .nil) (Agree.refl _ _)) (by simp [nArgs, nX1])
+    .step e1 (n := nArgs) (by rfl) (.args (by exact .nil) (Agree.refl _ _)) (by simp [nArgs])
   have e3 : Exec sem0 env0 [] graphG emp 3 s1 :=
     .step e2 (n := nX1) (by rfl)
-      (.assign (v := .int 1) (.const (Or.inl ⟨rfl, rfl⟩)) (.cons .name .nil) (Agree.refl _ _)) (by simp [nArgs, nX1])
+      (.assign (v := .int 1) (.const (Or.inl ⟨rfl, rfl⟩)) (.cons .name .nil) (Agree.refl _ _)) (by simp [nX1])
   exact .step e3 (n := nDef) (by rfl) (.fndef (ρ := .any) rfl (Agree.refl _ _)) (by simp [nDef])
 
 end CEx
